@@ -21,6 +21,13 @@
 (*                               stopped, a tick accepted, clock jump      *)
 (*   quiesce                     everything joined, final Wait returned,   *)
 (*                               flushers retired                          *)
+(*   hang op calls unexecuted    some public call did not return although  *)
+(*                               ticks and clock jumps were kept going for *)
+(*                               the whole grace period.  Never enabled:   *)
+(*                               every task is executed and Wait returns   *)
+(*                               (PeriodicalImpl.tla: no deadlock, a       *)
+(*                               flusher is alive while work is pending),  *)
+(*                               so no behaviour explains this event.      *)
 (* kind "per": the container belongs to the recorder, so AddTask/RemoveAll *)
 (* are logged under the executor's lock and nothing is internal.           *)
 (* kinds "bulk"/"chunk" are driven through the public API only: where an   *)
@@ -70,11 +77,12 @@ EvFStart == Is("fstart") /\ fl' = fl \cup {Ev.n} /\ UNCHANGED avars /\ Consume
 EvFStop  == Is("fstop") /\ Ev.n \in fl /\ fl' = fl \ {Ev.n} /\ UNCHANGED avars /\ Consume
 EvTick   == Is("tick") /\ UNCHANGED <<fl, avars>> /\ Consume
 EvJump   == Is("jump") /\ UNCHANGED <<fl, avars>> /\ Consume
+EvHang   == Is("hang") /\ FALSE /\ UNCHANGED <<fl, avars>> /\ Consume
 EvQuiet  == Is("quiesce") /\ Quiet /\ UNCHANGED <<fl, avars>> /\ Consume
 
 Logged ==
   \/ Reset \/ EvAddInv \/ EvAdd \/ EvAddRet \/ EvTake \/ EvXb \/ EvXe \/ EvWInv \/ EvWRet
-  \/ EvFInv \/ EvFRet \/ EvFStart \/ EvFStop \/ EvTick \/ EvJump \/ EvQuiet
+  \/ EvFInv \/ EvFRet \/ EvFStart \/ EvFStop \/ EvTick \/ EvJump \/ EvQuiet \/ EvHang
 
 \* public-API kinds: the effect of Add and the moment a batch is taken are not observable
 Internal ==
